@@ -312,10 +312,12 @@ structure TR (pre out0 : List Nat) (list : List Sym) (body : List Nat) (plan0 : 
   walk : ∀ (k : Nat) (hk : k < segs.length), ∃ b, SyncB b pre out0 body (pre ++ flatCw (segs.take k)) segs[k].start ∧
     (b = true → k + 1 = segs.length ∧ segs[k].cw.length ≤ 1 ∧ s.hasMore = false ∧ ExactFit list s.cw.length)
 
-theorem step_TR (pre out0 : List Nat) (list : List Sym) (body : List Nat) (hb : ByteList body) (plan0 : List (Nat × EMode))
+/-- one iteration of the main loop adds the segment that starts at the current position and carries
+the pending latch -/
+theorem step_TR_seg (pre out0 : List Nat) (list : List Sym) (body : List Nat) (hb : ByteList body) (plan0 : List (Nat × EMode))
     (s s' : St) (segs : List Seg) (mi : MI pre out0 list body s) (tr : TR pre out0 list body plan0 s segs)
     (hmore : s.hasMore = true) (h : encodeMode (latched s) = .ok s') :
-    ∃ g, TR pre out0 list body plan0 s' (segs ++ [g]) := by
+    ∃ X, TR pre out0 list body plan0 s' (segs ++ [(⟨s.pos, s.newMode, X⟩ : Seg)]) := by
   obtain ⟨X, hX, hpos, hrange⟩ := step_shape pre out0 list body hb s s' mi hmore h
   have mi' := step_MI pre out0 list body hb s s' mi hmore h
   have hpv' : PV plan0 (key s') := by
@@ -325,7 +327,7 @@ theorem step_TR (pre out0 : List Nat) (list : List Sym) (body : List Nat) (hb : 
       · exact (pv_closed plan0).clear _ tr.pv
       · exact tr.pv
     exact q_encodeMode (pv_closed plan0) _ _ h hl
-  refine ⟨(⟨s.pos, s.newMode, X⟩ : Seg), ?_, ?_, hpv', ?_⟩
+  refine ⟨X, ?_, ?_, hpv', ?_⟩
   · -- codewords
     rw [hX, flatCw_append]
     simp only [flatCw, List.append_nil, Seg.cw]
@@ -404,6 +406,13 @@ theorem step_TR (pre out0 : List Nat) (list : List Sym) (body : List Nat) (hb : 
           have hrest : s.rest = body.drop s.pos := by simp [St.rest, mi.inp]
           simp only [List.length_append, hrest, asciiEnc_length _ _ (Nat.le_refl _)]
           exact fit
+
+theorem step_TR (pre out0 : List Nat) (list : List Sym) (body : List Nat) (hb : ByteList body) (plan0 : List (Nat × EMode))
+    (s s' : St) (segs : List Seg) (mi : MI pre out0 list body s) (tr : TR pre out0 list body plan0 s segs)
+    (hmore : s.hasMore = true) (h : encodeMode (latched s) = .ok s') :
+    ∃ g, TR pre out0 list body plan0 s' (segs ++ [g]) := by
+  obtain ⟨X, hX⟩ := step_TR_seg pre out0 list body hb plan0 s s' segs mi tr hmore h
+  exact ⟨_, hX⟩
 
 theorem mainLoop_TR (pre out0 : List Nat) (list : List Sym) (body : List Nat) (hb : ByteList body) (plan0 : List (Nat × EMode)) :
     ∀ (f : Nat) (s : St) (k : Nat) (sE : St) (segs : List Seg), Enc.mainLoop f s k = .ok sE → MI pre out0 list body s →
